@@ -512,7 +512,31 @@ func init() {
 		return Iface{T: types.NewPointer(vt), V: &sv}
 	}, "context.WithValue")
 	// ---- unsafe builtins appear as functions in a few stdlib spots
+	// ---- ids: fresh, pairwise distinct, increasing
+	reg(func(p *Path, fr *frame, fn *ssa.Function, args []Value) Value {
+		n, _ := p.state["ulid"].(int)
+		n++
+		p.state["ulid"] = n
+		a := make(Array, 16)
+		for i := range a {
+			a[i] = sym.Byte(0)
+		}
+		a[14], a[15] = sym.Byte(byte(n>>8)), sym.Byte(byte(n))
+		return a
+	}, "github.com/oklog/ulid/v2.Make")
+	reg(func(p *Path, fr *frame, fn *ssa.Function, args []Value) Value {
+		a := args[0].(Array)
+		n := int(a[14].(*sym.Term).C)<<8 | int(a[15].(*sym.Term).C)
+		return fmt.Sprintf("01VF%022d", n)
+	}, "(github.com/oklog/ulid/v2.ULID).String")
+	reg(func(p *Path, fr *frame, fn *ssa.Function, args []Value) Value {
+		n, _ := p.state["uuid"].(int)
+		n++
+		p.state["uuid"] = n
+		return fmt.Sprintf("00000000-0000-4000-8000-%012d", n)
+	}, "github.com/google/uuid.NewString")
 	reg(nop, "os.runtime_beforeExit")
+	reg(func(p *Path, fr *frame, fn *ssa.Function, args []Value) Value { return Slice{} }, "syscall.runtime_envs")
 }
 
 // errorsIs follows Unwrap chains like errors.Is (without reflection).
